@@ -409,7 +409,7 @@ def _check_no_null_or_empty_list(value):
     if isinstance(value, collections.abc.Mapping):
         for v in value.values():
             _check_no_null_or_empty_list(v)
-    elif isinstance(value, list):
+    elif isinstance(value, (list, tuple)):
         if len(value) < 1:
             raise ValueError("must not contain empty lists.")
         for v in value:
